@@ -411,6 +411,9 @@ func main() {
 	r := hxlib.Start("C19", "an op sequence on one buffer; non-trivial when it writes values of at least two different widths; distinct by the exact op list")
 	defer r.Finish()
 	log.SetOutput(io.Discard)
+	// first line of every op stream: the word size of THIS build, so that the model answers with the
+	// tables extracted for the same value of is64Bit (a GOARCH=386 build is compared with the 32-bit tables)
+	r.Op(fmt.Sprintf("arch bits=%d", strconv.IntSize), "ok")
 	if r.Replay != "" {
 		var c Case
 		r.LoadReplay(&c)
